@@ -122,6 +122,10 @@ func drawConfig(r *rand.Rand, ps *PropSpec) world.Config {
 	cfg.TraceLog = r.Intn(8) == 0
 	cfg.ScratchReads = r.Intn(6) == 0
 	cfg.NilTrie = r.Intn(3) == 0
+	cfg.TypedNilAccounts = r.Intn(5) == 0
+	if r.Intn(6) == 0 {
+		cfg.NumDNS = []int{5, 9, 33}[r.Intn(3)]
+	}
 	return cfg
 }
 
